@@ -13,7 +13,7 @@ def replay(path):
     w = rec.get("witness") or {}
     if w.get("reproduced") and w.get("input_full", w.get("input")) and not str(w.get("input", "")).endswith("..."):
         import witness
-        r = witness.run_svgdx(os.environ.get("VERIF_REPO", "/repo"), w.get("input_full", w["input"]), timeout=5)
+        r = witness.run_svgdx(os.environ.get("VERIF_REPO", "/repo"), w.get("input_full", w["input"]), args=tuple(w.get("args") or ()), timeout=5)
         print("replayed input on the real binary: rc=%s timeout=%s" % (r["rc"], r["timeout"]))
         print((r["out"] or r["err"])[:600])
         print("expected:", w.get("expected"))
